@@ -462,6 +462,8 @@ def _gen_plan(family, rng, tier):
              # a filter expression that accepts every message changes nothing (the scanner then reads each
              # header first and decodes the message a second time)
              'filter': rng.choice([None] * 7 + ['True', '${%length} > 0', '${%n_subsets} >= 0 and ${%edition} > 1'])}
+    if rng.random() < 0.25:
+        knobs['wire'] = False       # the scan builds no hierarchical structure (what decode -m asks for)
     plan = {'knobs': knobs, 'items': items, 'seps': seps}
     if cut:
         plan['cut'] = cut
@@ -644,7 +646,8 @@ def _scan(arg):
     out = {'deliveries': [], 'exc': None}
     try:
         for stream in streams:          # one decoder object, one process, one scan after the other
-            for m in generate_bufr_message(dec, stream, continue_on_error=arg['coe'], filter_expr=arg.get('filter')):
+            for m in generate_bufr_message(dec, stream, continue_on_error=arg['coe'], filter_expr=arg.get('filter'),
+                                           **({} if arg.get('wire', True) else {'wire_template_data': False})):
                 out['deliveries'].append(_observe(m))
     except Exception as e:
         out['exc'] = exc_info(e)
@@ -702,7 +705,7 @@ def execute(plan):
                 root = make_tables_root(os.path.join(tmp, 'r%d' % i), it['version'], it['extra_b'], it['extra_d'])
                 tr['file'][str(i)] = core.run_in_child(_file_decode, {'root': root, 'hex': it['hex']}, 300)
         arg = {'stream': lay['stream'].hex(), 'coe': kn['coe'], 'compiled': kn.get('compiled'),
-               'filter': kn.get('filter')}
+               'filter': kn.get('filter'), 'wire': kn.get('wire', True)}
         if len(lay['streams']) > 1:
             arg['streams'] = [x.hex() for x in lay['streams']]
         if plan['family'] == 'c08-def':
@@ -846,7 +849,7 @@ def shape(plan, tr=None):
                  bool(it.get('reused_template')))
                 for it in plan['items'])
     return (plan['family'], kn.get('sub'), per, kn.get('coe'), kn.get('compiled'), kn.get('filecheck'),
-            bool(kn.get('filter')), plan.get('cut'))
+            bool(kn.get('filter')), plan.get('cut'), kn.get('wire', True))
 
 
 def nontrivial(plan, tr):
@@ -904,6 +907,10 @@ def shrink_candidates(plan):
     if kn.get('filter'):
         p = _copy(plan)
         p['knobs']['filter'] = None
+        yield p
+    if kn.get('wire') is False:
+        p = _copy(plan)
+        p['knobs'].pop('wire')
         yield p
     if kn.get('coe') and not any(it['kind'] == 'bad' for it in plan['items']):
         p = _copy(plan)
